@@ -787,27 +787,46 @@ Qed.
 
 (* verdict 0 of the correspondence check means: the implementation's observed arrays satisfy
    the spec predicate AND coincide with the model's prediction *)
-Theorem check_case_ok c e pre chg p err rs ks :
-  check_case (Case c e pre chg p err rs ks) = 0%Z ->
+Theorem confined_oracle_sound dst n0 ws :
+  confined_oracle dst n0 ws = true <-> writes_confined dst n0 ws.
+Proof.
+  unfold confined_oracle, writes_confined. rewrite forallb_forall. split.
+  - intros H a i Hin. specialize (H (a, i) Hin). cbn [fst snd] in H.
+    apply orb_true_iff in H as [H|H]; [left; apply Nat.leb_le, H | right; exact H].
+  - intros H [a i] Hin. cbn [fst snd]. apply orb_true_iff.
+    destruct (H a i Hin) as [L|M]; [left; apply Nat.leb_le, L | right; exact M].
+Qed.
+
+Theorem check_case_ok c e pre chg p err rs ks wf :
+  check_case (Case c e pre chg p err rs ks wf) = 0%Z ->
   readonly_spec (dst_of c) (heap_of pre) (apply_changes (heap_of pre) chg) /\
-  model_agrees Fixed (Case c e pre chg p err rs ks) = true.
+  writes_confined (dst_of c) (length (heap_of pre)) wf /\
+  model_agrees Fixed (Case c e pre chg p err rs ks wf) = true.
 Proof.
   unfold check_case. destruct (oracle _) eqn:Eo; cbn [negb]; [|discriminate].
   destruct (model_agrees _ _) eqn:Em; cbn [negb]; [|discriminate].
-  intros _. split; [|reflexivity].
-  unfold oracle in Eo. apply andb_true_iff in Eo as [Eo _].
-  apply readonly_oracle_sound, Eo.
+  intros _. unfold oracle in Eo.
+  apply andb_true_iff in Eo as [Eo Ec]. apply andb_true_iff in Eo as [Eo _].
+  split; [apply readonly_oracle_sound, Eo|]. split; [apply confined_oracle_sound, Ec | reflexivity].
 Qed.
 
 (* non-vacuity of the hypothesis: a recorded PadPKCS7(buf[1:3:5], 16) on a 6-byte canary array,
    nothing changed, a fresh 16-byte result *)
 Example check_case_ok_inhabited :
   check_case (Case (CPad (mkS 0 1 2 4) 16) (mkE false None 0 ENone)
-                   [[xee; x01; x02; xee; xee; xee]] [] false ENone [RF 16] true) = 0%Z.
+                   [[xee; x01; x02; xee; xee; xee]] [] false ENone [RF 16] true []) = 0%Z.
 Proof. vm_compute. reflexivity. Qed.
 
 (* ... and the same observation with one spare-capacity byte overwritten gets verdict 2 *)
 Example check_case_detects_spare_write :
   check_case (Case (CPad (mkS 0 1 2 4) 16) (mkE false None 0 ENone)
-                   [[xee; x01; x02; xee; xee; xee]] [(0, 3, [x0e])] false ENone [RF 16] true) = 2%Z.
+                   [[xee; x01; x02; xee; xee; xee]] [(0, 3, [x0e])] false ENone [RF 16] true []) = 2%Z.
+Proof. vm_compute. reflexivity. Qed.
+
+(* ... and a call that left every byte as it was but was caught storing into its read-only
+   argument (a transient write that is undone before returning) gets verdict 2 as well *)
+Example check_case_detects_transient_write :
+  check_case (Case (CUnpad (mkS 0 0 16 16) 16) (mkE false None 0 ENone)
+                   [[x01;x02;x03;x04;x05;x06;x07;x08;x09;x0a;x0b;x0c;x04;x04;x04;x04]] [] true ENone [] true
+                   [(0, 12)]) = 2%Z.
 Proof. vm_compute. reflexivity. Qed.
